@@ -85,7 +85,7 @@ def sel_case(idx):
 def cases(tier, seed):
     sel = [{"id": f"sel:{i}", "kind": "sel", "idx": i, "stratum": "sel"} for i in range(2600)]
     ind = []
-    base = common.fx_cases(2500) + common.mx_cases(1, 2500, start=60) + common.rc_cases()
+    base = common.fx_cases(2500)[::2] + common.mx_cases(1, 2500, start=60)[::4] + common.rc_cases()[::2]
     for c in base:
         c = dict(c)
         c["mode"] = "ind"
